@@ -169,7 +169,7 @@ fn item<C: Suite>(ctx: &mut Ctx, n: usize) {
             }
         }
         p.shuffle(&mut pairs);
-        let cap = ctx.scale(40, 500);
+        let cap = ctx.scale(if C::NAME == "ed448" { 40 } else { 120 }, 500);
         for &(a, b2) in pairs.iter().take(cap) {
             let dl = sc_from_be_bytes_mod::<C>(&p.bytes(40)) + one::<C>();
             let mut b = items.clone();
